@@ -3,6 +3,7 @@ termination shape, R-GRAM, R-TEXTFREE, precedence, LTL front end agreement, unle
 import ast
 
 from sa.index import AnalysisError, ClassInfo, FuncInfo, External
+from sa.index import before as _before
 from sa import grammar as G, genparser as GP, flow, dispatch as D, model as M
 from sa.rules import keys
 
@@ -104,11 +105,11 @@ def check_listener(ix, rep, grammars, rule='R-LISTENER'):
             if isinstance(st, ast.Assign) and ast.unparse(st.targets[0]) == '%s._listeners' % nm and isinstance(st.value, ast.List) and len(st.value.elts) == 1:
                 installs.append((st, st.value.elts[0]))
             if isinstance(st, ast.Expr) and isinstance(st.value, ast.Call) and ast.unparse(st.value.func) == '%s.addErrorListener' % nm:
-                removed = any(isinstance(x, ast.Call) and ast.unparse(x.func) == '%s.removeErrorListeners' % nm and x.lineno < st.lineno for x in ast.walk(f.node))
+                removed = any(isinstance(x, ast.Call) and ast.unparse(x.func) == '%s.removeErrorListeners' % nm and _before(x, st) for x in ast.walk(f.node))
                 if removed:
                     installs.append((st, st.value.args[0]))
         good = [i for i in installs if 'parserErrorListenerType' in ast.unparse(i[1])]
-        before = [i for i in good if i[0].lineno < entry.lineno]
+        before = [i for i in good if _before(i[0], entry)]
         if before:
             rep.ok(rule, f.module.rel, f.qual, who, 'the default listeners of the %s are replaced by the raising listener before parsing starts' % who, before[0][0].lineno)
             # conditional on the listener type being given?
@@ -457,7 +458,7 @@ def _frozen(ix, rep, cls, f, load, d):
             return None
         # the load is preceded by try: create_var_from_name(key) ... except KeyError: (raise | declare_var(...))
         for st in ast.walk(f.node):
-            if isinstance(st, ast.Try) and st.lineno < load.lineno:
+            if isinstance(st, ast.Try) and _before(st, load):
                 first = st.body[0] if st.body else None
                 ok_try = isinstance(first, ast.Assign) and isinstance(first.value, ast.Call) and D._self_call(first.value) == 'create_var_from_name' \
                     and ast.unparse(first.value.args[0]) == key
@@ -636,7 +637,7 @@ def _underscore_free(fnode, a, call):
         return True
     if isinstance(a, ast.Name):
         defs = [st for st in ast.walk(fnode) if isinstance(st, ast.Assign) and any(isinstance(t, ast.Name) and t.id == a.id for t in st.targets)]
-        before = [st for st in defs if st.lineno < call.lineno]
+        before = [st for st in defs if _before(st, call)]
         # `if isinstance(x, float): x = repr(x)`: the text of a number has no underscores
         before = [st for st in before if not (isinstance(st.value, ast.Call) and isinstance(st.value.func, ast.Name) and st.value.func.id in ('repr', 'str')
                                               and _under_text_guard(fnode, st, a.id))]
